@@ -30,7 +30,7 @@ PROPERTY = "C13"
 ENGINE = "rngsim"
 LEVEL = "exploration"
 TIERS = {
-    "quick": {"runs": 900, "budget_s": 300, "chunk": 15},
+    "quick": {"runs": 1500, "budget_s": 300, "chunk": 20},
     "thorough": {"runs": 30000, "budget_s": 3000, "chunk": 60},
 }
 SELFTEST_N = 40
@@ -82,6 +82,8 @@ def gen_case(run_seed: int, index: int, tier: str) -> dict:
         "noise_param": rng.choice(["power", "snr"]), "power": 10 ** rng.uniform(-3, 1), "snr_db": round(rng.uniform(-10, 35), 2),
         "sig_power": 10 ** rng.uniform(-2, 2),
         "torch_seed": rng.randrange(1 << 31), "data_seed": rng.randrange(1 << 31),
+        "warmup": rng.choice([None, None, [6], [2, 9], [3, 2, 2, 2]]),  # an earlier call on the same channel object, other shape
+        "noncontig": rng.random() < 0.2,
     }
 
 
@@ -135,6 +137,11 @@ def execute(case: dict) -> RunResult:
     ch = _channel(case)
     mode = case["mode"]
     cdt = torch.complex128 if case["dtype"] == "float64" else torch.complex64
+    if case.get("warmup"):
+        gw = torch.Generator().manual_seed(case["data_seed"] ^ 0x77)
+        torch.manual_seed(case["torch_seed"] ^ 0x2468)
+        ch(torch.randn(case["warmup"], generator=gw, dtype=DT[case["dtype"]]) * 3.0)
+        res.faults["history.earlier_call_on_same_object"] += 1
 
     def flat(t):  # the channel's internal (batch, sequence) layout
         return t.reshape(B, L)
@@ -144,6 +151,9 @@ def execute(case: dict) -> RunResult:
 
     if mode == "supplied":
         x = _signal(case, g)
+        if case.get("noncontig") and x.dim() >= 2:
+            x = x.transpose(0, -1).contiguous().transpose(0, -1)
+            res.probes["input.noncontiguous"] += 1
         x0 = x.clone()
         h = torch.complex(torch.randn(B, L, generator=g), torch.randn(B, L, generator=g)).to(cdt)
         nz = torch.complex(torch.randn(B, L, generator=g), torch.randn(B, L, generator=g)).to(cdt) * 0.3
@@ -169,6 +179,9 @@ def execute(case: dict) -> RunResult:
         x = _signal(case, g)
         if case["data_seed"] & 2:
             x = torch.ones_like(x)
+        if case.get("noncontig") and x.dim() >= 2:
+            x = x.transpose(0, -1).contiguous().transpose(0, -1)
+            res.probes["input.noncontiguous"] += 1
         x0 = x.clone()
         zero = torch.zeros(B, L, dtype=cdt)
         torch.manual_seed(case["torch_seed"])
